@@ -86,6 +86,16 @@ Calls == {
     [call |-> "SemiCylinder.radius_vector", cond |-> Simple("Perp")],
     [call |-> "Frustum.radius_vector", cond |-> Simple("Perp")],
     [call |-> "ExtrudedRing.radius_vector", cond |-> Simple("Perp")],
+    \* (the same requirement when the axis is given by two points very close together or very far apart: being perpendicular
+    \*  is a matter of direction, not of how long the axis vector happens to be)
+    [call |-> "Cylinder.radius_vector.short_axis", cond |-> Simple("Perp")],
+    [call |-> "Cylinder.radius_vector.long_axis", cond |-> Simple("Perp")],
+    [call |-> "SemiCylinder.radius_vector.short_axis", cond |-> Simple("Perp")],
+    [call |-> "SemiCylinder.radius_vector.long_axis", cond |-> Simple("Perp")],
+    [call |-> "Frustum.radius_vector.short_axis", cond |-> Simple("Perp")],
+    [call |-> "Frustum.radius_vector.long_axis", cond |-> Simple("Perp")],
+    [call |-> "ExtrudedRing.radius_vector.short_axis", cond |-> Simple("Perp")],
+    [call |-> "ExtrudedRing.radius_vector.long_axis", cond |-> Simple("Perp")],
     [call |-> "Cylinder.chain.length", cond |-> Simple("Positive")],
     [call |-> "Frustum.chain.length", cond |-> Simple("Positive")],
     [call |-> "ExtrudedRing.chain.length", cond |-> Simple("Positive")],
